@@ -41,6 +41,9 @@ type config struct {
 	ConsFail string
 	// Raft: the peer runs the real single-peer Raft consensus component.
 	Raft bool
+	// BlockGetFails: the IPFS daemon cannot deliver blocks during the call
+	// (the cluster-DAG of sharded content is read from it on unpin).
+	BlockGetFails bool
 }
 
 func (c config) String() string {
@@ -54,6 +57,9 @@ func (c config) String() string {
 	if c.Raft {
 		f += "+raft"
 	}
+	if c.BlockGetFails {
+		f += "+ipfs-block-get-fails"
+	}
 	return fmt.Sprintf("rf=%d/%d,%s", c.Min, c.Max, f)
 }
 
@@ -61,14 +67,15 @@ var factorConfigs = []config{{Min: -1, Max: -1}, {Min: 1, Max: 2}, {Min: 2, Max:
 
 // rig is one real single-peer Cluster inside the current bubble.
 type rig struct {
-	cfg     config
-	p       *clus.Peer
-	h       host.Host
-	sh      *clus.Shared
-	store   ds.Datastore
-	ipfs    *clus.IPFS
-	ctx     context.Context
-	raftDir string
+	cfg          config
+	p            *clus.Peer
+	h            host.Host
+	sh           *clus.Shared
+	store        ds.Datastore
+	ipfs         *clus.IPFS
+	ctx          context.Context
+	raftDir      string
+	blockGetDown bool
 }
 
 // newRig builds the peer: real Cluster, recording in-memory consensus over a
@@ -111,6 +118,9 @@ func newRig(t *testing.T, cfg config, track bool) *rig {
 		return cid.Undef, errors.New("model ipfs: cannot resolve " + path)
 	}
 	r.ipfs.BlockGetF = func(c cid.Cid) ([]byte, error) {
+		if r.blockGetDown {
+			return nil, errors.New("model ipfs: block/get failed (daemon fault)")
+		}
 		if c.Equals(universe["d"]) {
 			return clusterDAGRaw, nil
 		}
@@ -224,6 +234,10 @@ type result struct {
 // exec runs one call of the alphabet on the real Cluster; a panic of the code
 // under test is caught and reported as such.
 func (r *rig) exec(c call) (res result) {
+	if r.cfg.BlockGetFails {
+		r.blockGetDown = true
+		defer func() { r.blockGetDown = false }()
+	}
 	if r.cfg.ConsFail != "" {
 		n := 0
 		if r.cfg.ConsFail == "first" {
